@@ -128,15 +128,18 @@ pub struct Scenario {
     pub genesis: u8,
     /// label prefixes of alphabet actions taken from the root before `pre` (e.g. minting a token on mainnet, where no faucet can fund a wallet)
     pub setup_labels: Vec<&'static str>,
+    /// follow refused batches (Engine::follow_rejected)
+    pub follow_rejected: bool,
 }
 
 pub fn sc(name: &'static str, net: NetID, fee_mult: u128, cfg: AlphaCfg, depth: usize) -> Scenario {
-    Scenario { name, net, fee_mult, cfg, depth, pre: vec![], genesis: 0, setup_labels: vec![] }
+    Scenario { name, net, fee_mult, cfg, depth, pre: vec![], genesis: 0, setup_labels: vec![], follow_rejected: false }
 }
 
 pub fn run_scenario(run: &Run, sc: &Scenario, max_states: usize) -> SearchStats {
     let (_w, mut root) = root_variant(sc.net, sc.fee_mult, true, sc.genesis);
-    let eng = Engine::new(run);
+    let mut eng = Engine::new(run);
+    eng.follow_rejected = sc.follow_rejected;
     if !sc.setup_labels.is_empty() {
         let mut setup_cfg = sc.cfg.clone();
         setup_cfg.mints = true;
